@@ -87,8 +87,8 @@ class C05:
         g = ("param", s.params[0])
         rows: Dict[str, list] = {}
         for r in s.returns:
-            tags = [c[3][1] for c in conjuncts(r.live) if c[0] == "cmp" and c[1] == "eq" and c[2] == ("attr", g, "type") and c[3][0] == "const"]
-            tags += [c[2][1] for c in conjuncts(r.live) if c[0] == "cmp" and c[1] == "eq" and c[3] == ("attr", g, "type") and c[2][0] == "const"]
+            from sa.idioms import selected_tags
+            tags = selected_tags(r.live, ("attr", g, "type"))
             if len(tags) != 1:
                 ctx.undec("R05.1", f"{file}:{r.lineno} geometry_to_shapely", f"return not guarded by a single `geom.type == <tag>` test: {show(r.live)[:80]}")
                 continue
